@@ -5,7 +5,8 @@ package app
 // signed transaction executes twice. After a first committed block with three transfers of one sender (nonces
 // 0,1,2), candidate second blocks are offered to CheckBlock: a replay of each earlier transaction (alone, first,
 // last), the same new transaction twice, a nonce gap, a descending pair, and - as controls that must be accepted -
-// the exact next nonce and two consecutive ones. A refused block must leave no trace: the control block is still
+// the exact next nonces, plain and token transfers interleaved. The same is done with token transfers of a third
+// sender (types.TokenTransaction reaches the nonce check through its own branch of GenerateTransaction). A refused block must leave no trace: the control block is still
 // accepted afterwards and executes once (balances checked).
 
 import (
@@ -80,6 +81,20 @@ func TestBoundedC07Replay(t *testing.T) {
 		t.Fatal(err)
 	}
 
+	// a third sender moving a token (types.TokenTransaction takes its own path through GenerateTransaction)
+	keyT, _ := crypto.GenerateKey()
+	fromT := crypto.PubkeyToAddress(keyT.PublicKey)
+	tokenAddr := common.HexToAddress("0x00000000000000000000000000000000746f6b31")
+	tgas := types.CalNewAmountGas(big.NewInt(0), types.EverLiankeFee)
+	mkT := func(nonce uint64, amount int64) types.Tx {
+		tx := types.NewTokenTransaction(tokenAddr, nonce, to, big.NewInt(amount), tgas, gp, nil)
+		if err := tx.Sign(types.GlobalSTDSigner, keyT); err != nil {
+			t.Fatal(err)
+		}
+		return tx
+	}
+	tok := map[uint64]types.Tx{0: mkT(0, 100), 1: mkT(1, 10), 2: mkT(2, 1), 7: mkT(7, 5)}
+
 	bs := blockchain.NewBlockStore(dbm.NewMemDB())
 	g := &types.Block{Header: &types.Header{Height: 0, Time: 1507737600, GasLimit: types.DefaultConsensusParams().BlockSize.MaxGas}, Data: &types.Data{}, LastCommit: &types.Commit{}}
 	bs.SaveBlock(g, g.MakePartSet(types.DefaultConsensusParams().BlockGossip.BlockPartSizeBytes), nil, nil, &types.TxsResult{})
@@ -99,6 +114,10 @@ func TestBoundedC07Replay(t *testing.T) {
 	a.checkTxState.AddBalance(from, funds)
 	a.storeState.AddBalance(fromB, one)
 	a.checkTxState.AddBalance(fromB, one)
+	a.storeState.AddBalance(fromT, funds)
+	a.checkTxState.AddBalance(fromT, funds)
+	a.storeState.AddTokenBalance(fromT, tokenAddr, big.NewInt(1000))
+	a.checkTxState.AddTokenBalance(fromT, tokenAddr, big.NewInt(1000))
 
 	nfail, cases := 0, 0
 	fail := func(format string, x ...interface{}) {
@@ -129,7 +148,7 @@ func TestBoundedC07Replay(t *testing.T) {
 			fail("CommitBlock(%d): %v", b.Height, err)
 		}
 	}
-	b1, ok := offer(1, types.Txs{txs[0], txs[1], txB, txs[2]}, 1507737700)
+	b1, ok := offer(1, types.Txs{txs[0], txs[1], txB, txs[2], tok[0]}, 1507737700)
 	if !ok {
 		t.Fatalf("block 1 refused")
 	}
@@ -137,6 +156,10 @@ func TestBoundedC07Replay(t *testing.T) {
 	bal1 := new(big.Int).Set(a.storeState.GetBalance(to))
 	if bal1.Cmp(new(big.Int).Mul(one, big.NewInt(3))) != 0 || a.storeState.GetNonce(fromB) != 1 {
 		fail("block 1: recipient balance %v (want 3 units: the overdrawn transfer must not arrive), nonce of its sender %d (want 1: it was executed, and failed)", bal1, a.storeState.GetNonce(fromB))
+	}
+
+	if got := a.storeState.GetTokenBalance(to, tokenAddr); got.Cmp(big.NewInt(100)) != 0 || a.storeState.GetNonce(fromT) != 1 {
+		fail("block 1: recipient token balance %v (want 100), nonce of the token sender %d (want 1)", got, a.storeState.GetNonce(fromT))
 	}
 
 	bad := []struct {
@@ -153,23 +176,31 @@ func TestBoundedC07Replay(t *testing.T) {
 		{"nonce gap", types.Txs{txs[4]}},
 		{"gap behind the next nonce", types.Txs{txs[3], txs[5]}},
 		{"descending pair", types.Txs{txs[4], txs[3]}},
+		{"replay of a token transfer", types.Txs{tok[0]}},
+		{"replay of a token transfer behind fresh transactions", types.Txs{txs[3], tok[1], tok[0]}},
+		{"the same fresh token transfer twice", types.Txs{tok[1], tok[1]}},
+		{"token transfer with a nonce gap", types.Txs{tok[7]}},
+		{"token transfers in descending order", types.Txs{tok[2], tok[1]}},
 	}
 	for i, c := range bad {
 		cases++
 		if _, ok := offer(2, c.list, 1507737710+uint64(i)); ok {
 			fail("a block with %s is accepted", c.name)
 		}
-		if a.storeState.GetNonce(from) != 3 || a.storeState.GetBalance(to).Cmp(bal1) != 0 {
+		if a.storeState.GetNonce(from) != 3 || a.storeState.GetBalance(to).Cmp(bal1) != 0 || a.storeState.GetNonce(fromT) != 1 || a.storeState.GetTokenBalance(to, tokenAddr).Cmp(big.NewInt(100)) != 0 {
 			fail("after the refused block with %s the committed state changed (nonce %d)", c.name, a.storeState.GetNonce(from))
 		}
 	}
-	good, ok := offer(2, types.Txs{txs[3], txs[4]}, 1507737750)
+	good, ok := offer(2, types.Txs{txs[3], tok[1], txs[4], tok[2]}, 1507737750)
 	cases++
 	if !ok {
 		fail("the block with exactly the next two nonces is refused after the refused ones")
 	} else {
 		commit(good)
 		want := new(big.Int).Add(bal1, new(big.Int).Mul(one, big.NewInt(2)))
+		if got := a.storeState.GetTokenBalance(to, tokenAddr); got.Cmp(big.NewInt(111)) != 0 || a.storeState.GetNonce(fromT) != 3 {
+			fail("after the accepted block: recipient token balance %v (want 111), token sender nonce %d (want 3)", got, a.storeState.GetNonce(fromT))
+		}
 		if a.storeState.GetNonce(from) != 5 || a.storeState.GetBalance(to).Cmp(want) != 0 {
 			fail("after the accepted block: nonce %d (want 5), recipient balance %v (want %v)", a.storeState.GetNonce(from), a.storeState.GetBalance(to), want)
 		}
